@@ -155,6 +155,10 @@ Proof.
   intros A B C P g la lb H. induction H; simpl; constructor; assumption.
 Qed.
 
+Lemma Forall2_impl' : forall {A B} (P Q : A -> B -> Prop) l1 l2,
+  (forall a b, P a b -> Q a b) -> Forall2 P l1 l2 -> Forall2 Q l1 l2.
+Proof. intros A B P Q l1 l2 H F. induction F; constructor; auto. Qed.
+
 Lemma NoDup_rings : forall R : list line, NoDup (concat R) -> Forall (fun r => (1 <= length r)%nat) R -> NoDup R.
 Proof.
   induction R as [|r R IH]; intros Hnd Hne; [constructor|].
@@ -303,4 +307,119 @@ Proof.
       exists l. split; [exact Hin'|exact Hcw].
   - rewrite Hcnt, tl_singletons. simpl.
     rewrite <- (Forall2_length' _ _ _ Fh). apply Permutation_length. exact Ph.
+Qed.
+
+(* ---------------------------------------------------------------- build_polygon_recovers *)
+Definition geom_polys (g : geometry) : option multipolygon :=
+  match g with GPolygon p => Some [p] | GMultiPolygon mp => Some mp | _ => None end.
+
+Lemma contained_perm : forall sc sc', Permutation sc sc' -> contained sc -> contained sc'.
+Proof.
+  intros sc sc' HP [Hin Hout]. split.
+  - intros o hs h Hoh Hh. apply (Hin o hs h); [eapply Permutation_in; [symmetry; exact HP|exact Hoh]|exact Hh].
+  - intros o hs h o' hs' Hoh Hh Hoh' Hne. apply (Hout o hs h o' hs'); try assumption;
+      (eapply Permutation_in; [symmetry; exact HP|assumption]).
+Qed.
+
+Theorem build_geometry_recovers : forall incl (c : collected) (sc : gscene),
+  sc <> [] ->
+  NoDup (concat (s_outers sc)) -> NoDup (concat (s_holes sc)) ->
+  Forall (fun r => (3 <= length r)%nat) (s_outers sc ++ s_holes sc) ->
+  (forall r, In r (s_outers sc ++ s_holes sc) -> shoelace (close_ring r) <> 0) ->
+  contained sc ->
+  is_cut (map close_ring (s_outers sc)) (col_outer c) ->
+  is_cut (map close_ring (s_holes sc)) (col_inner c) ->
+  (forall s, In s (col_outer c ++ col_inner c) -> seg_orient s = 0) ->
+  exists mp sc',
+    geom_polys (build_geometry incl c) = Some mp /\ Permutation sc' sc /\
+    Forall2 poly_recovered sc' mp /\
+    length (concat (map (@tl line) mp)) = length (s_holes sc).
+Proof.
+  intros incl c sc Hne Hndo Hndh Hlen Harea Hcont Hco Hci Hz.
+  pose proof Hlen as Hlen0. apply Forall_app in Hlen0. destruct Hlen0 as [Hleno Hlenh].
+  set (outer := col_outer c) in *. set (inner := col_inner c) in *.
+  destruct (join outer) as [osec|] eqn:Ho; [|exfalso; exact (join_terminates _ Ho)].
+  destruct (join inner) as [isec|] eqn:Hi; [|exfalso; exact (join_terminates _ Hi)].
+  destruct (rings_of_join (s_outers sc) outer osec 1 (or_introl eq_refl) Hndo Hleno) as (ros' & Pro & Fo);
+    try assumption.
+  { intros r Hr. apply Harea. apply in_or_app. left. exact Hr. }
+  { intros s Hs. apply Hz. apply in_or_app. left. exact Hs. }
+  destruct (rings_of_join (s_holes sc) inner isec (-1) (or_intror eq_refl) Hndh Hlenh) as (rhs' & Pri & Fi);
+    try assumption.
+  { intros r Hr. apply Harea. apply in_or_app. right. exact Hr. }
+  { intros s Hs. apply Hz. apply in_or_app. right. exact Hs. }
+  (* order the scene like the outer chains *)
+  destruct (@Permutation_map_inv _ _ fst ros' sc Pro) as (sc' & Eros & Psc).
+  assert (Hsc' : Permutation sc' sc) by (symmetry; exact Psc).
+  assert (Pholes : Permutation (s_holes sc) (s_holes sc')).
+  { unfold s_holes. apply perm_concat. apply Permutation_map. exact Psc. }
+  assert (Pouters : Permutation (s_outers sc) (s_outers sc')).
+  { unfold s_outers. apply Permutation_map. exact Psc. }
+  assert (Hndo' : NoDup (concat (s_outers sc'))) by (eapply Permutation_NoDup; [apply perm_concat; exact Pouters|exact Hndo]).
+  assert (Hndh' : NoDup (concat (s_holes sc'))) by (eapply Permutation_NoDup; [apply perm_concat; exact Pholes|exact Hndh]).
+  assert (Hlen' : Forall (fun r => (3 <= length r)%nat) (s_outers sc' ++ s_holes sc')).
+  { eapply Permutation_Forall; [apply Permutation_app; [exact Pouters|exact Pholes]|exact Hlen]. }
+  pose proof (contained_perm sc sc' Psc Hcont) as Hcont'.
+  set (orings := map (ring_of CCW) osec).
+  set (hlines := map (ring_of CW) isec).
+  assert (Fo' : Forall2 (fun oh ol => ccw_line (fst oh) ol) sc' orings).
+  { unfold orings. apply Forall2_map_r'.
+    apply (Forall2_map_l (fun r ch => ccw_line r (ring_of CCW ch)) fst). rewrite <- Eros.
+    eapply Forall2_impl'; [|exact Fo]. intros r ch (H1 & H2 & _). split; assumption. }
+  assert (Fh' : Forall2 cw_line rhs' hlines).
+  { unfold hlines. apply Forall2_map_r'. eapply Forall2_impl'; [|exact Fi].
+    intros r ch (H1 & H2 & _). split; assumption. }
+  assert (Ph' : Permutation rhs' (s_holes sc')) by (rewrite Pri; exact Pholes).
+  assert (Hvalid : forall x, In x orings -> (incl || valid_ring x) = true).
+  { intros x Hx. unfold orings in Hx. apply in_map_iff in Hx. destruct Hx as (ch & <- & Hch).
+    destruct (Forall2_in_r _ _ _ ch Fo Hch) as (r & _ & _ & _ & Hv). change CCW with 1. rewrite Hv. apply orb_true_r. }
+  assert (Hosec : osec <> []).
+  { intro E. pose proof (Forall2_length' _ _ _ Fo') as L. unfold orings in L. rewrite E in L. simpl in L.
+    destruct sc'; [|discriminate]. apply Permutation_nil in Hsc'. contradiction. }
+  assert (Houter : outer <> []).
+  { intro E. rewrite E in Ho. vm_compute in Ho. inversion Ho. subst. contradiction. }
+  destruct (assign_core incl sc' orings rhs' hlines Hndo' Hndh' Hlen' Hcont' Fo' Fh' Ph') as [Frec Hcnt].
+  rewrite <- (Permutation_length Pholes) in Hcnt.
+  unfold build_geometry. fold outer inner.
+  destruct (Nat.eqb (length outer) 0 && negb incl) eqn:C1.
+  { destruct outer; [contradiction|discriminate]. }
+  destruct (Nat.eqb (length outer) 1 && Nat.eqb (col_outer_count c) 1) eqn:C2.
+  - (* a single outer way *)
+    apply andb_true_iff in C2. destruct C2 as [C2 _]. apply Nat.eqb_eq in C2.
+    destruct outer as [|s0 [|s1 rest]]; try discriminate. clear C2.
+    assert (Hs0 : len2 s0) by (pose proof (is_cut_len2 _ _ Hco) as H2; inversion H2; assumption).
+    rewrite (join_single s0 Hs0) in Ho. inversion Ho; subst osec. clear Ho.
+    rewrite Hi.
+    assert (Hv : valid_ring (ring_of CCW [s0]) = true).
+    { inversion Fo as [|r ch rs chs (_ & _ & Hv) Frest]; subst. exact Hv. }
+    rewrite Hv. cbn [negb].
+    exists [ring_of CCW [s0] :: hlines], sc'. split; [reflexivity|]. split; [exact Hsc'|].
+    (* one polygon: all holes are its holes *)
+    unfold orings in Fo'. cbn [map] in Fo'.
+    inversion Fo' as [|[o hs] ol sct orest Hccw Frest]; subst. inversion Frest; subst.
+    simpl in Hccw.
+    assert (Ehs : s_holes [(o, hs)] = hs) by (unfold s_holes; simpl; apply app_nil_r).
+    rewrite Ehs in Ph'. split.
+    + constructor; [|constructor]. exists (ring_of CCW [s0]), hlines. split; [reflexivity|].
+      split; [exact Hccw|]. simpl snd. split.
+      * apply Forall_forall. intros l Hl. destruct (Forall2_in_r _ _ _ l Fh' Hl) as (h & Hh & Hcw).
+        exists h. split; [eapply Permutation_in; [exact Ph'|exact Hh]|exact Hcw].
+      * intros h Hh. assert (Hh' : In h rhs') by (eapply Permutation_in; [symmetry; exact Ph'|exact Hh]).
+        destruct (Forall2_in_l _ _ _ h Fh' Hh') as (l & Hl & Hcw). exists l. split; assumption.
+    + simpl. rewrite app_nil_r. rewrite <- (Forall2_length' _ _ _ Fh').
+      rewrite (Permutation_length Ph'). rewrite <- Ehs. symmetry. apply Permutation_length. exact Pholes.
+  - (* several outer ways / rings *)
+    rewrite Ho, Hi. fold orings.
+    rewrite (filter_all _ orings Hvalid).
+    destruct (Nat.eqb (length (map (fun r => [r]) orings)) 0 && negb incl) eqn:C3.
+    { apply andb_true_iff in C3. destruct C3 as [C3 _]. apply Nat.eqb_eq in C3.
+      rewrite map_length in C3. unfold orings in C3. rewrite map_length in C3.
+      destruct osec; [contradiction|discriminate]. }
+    rewrite (fold_add_map incl (ring_of CW) isec). fold hlines.
+    set (mp := add_all incl (map (fun r => [r]) orings) hlines) in *.
+    assert (Hmplen : length mp = length sc') by (symmetry; apply (Forall2_length' _ _ _ Frec)).
+    destruct mp as [|p [|q mp']] eqn:Emp.
+    + exfalso. destruct sc'; [|discriminate]. apply Permutation_nil in Hsc'. contradiction.
+    + exists [p], sc'. split; [reflexivity|]. split; [exact Hsc'|]. split; [exact Frec|exact Hcnt].
+    + exists (p :: q :: mp'), sc'. split; [reflexivity|]. split; [exact Hsc'|]. split; [exact Frec|exact Hcnt].
 Qed.
